@@ -205,7 +205,7 @@ def show(x):
     if isinstance(x, dict):
         return {k: show(v) for k, v in x.items()}
     if isinstance(x, (set, frozenset)):
-        return sorted((show(y) for y in x), key=repr) if not any(isinstance(y, SInt) for y in x) else x
+        return {show(y) for y in x}       # canonical order is established by the engine after concretisation
     if callable(x):
         return getattr(x, "__name__", type(x).__name__)
     return x
